@@ -7,13 +7,13 @@
    a kernel-checked witness (_refuted) and listed in known_findings/C02.json.
 
    NOT proved (sampled by the correspondence check, harness/c02.py): that the AST builder only issues guarded
-   operations; that a guarded operation does not raise (step = Some _ is a hypothesis: KeyError / RecursionError /
-   fuel are all `None`; that the fuel of fullName suffices IS part of Inv (I1)); the replacement of a module inside a
-   package by a same-named module (guard_add_module excludes it); MRO shape (C05); zope implementedby/implements. *)
+   operations; name resolution inside compute_mro / find_object (C04, C07): the resolved bases and the resolved
+   interface targets are inputs of the models here. *)
 From Coq Require Import ZArith NArith List Bool.
 From PydoctorVerif Require Import Base.Sexp Model.Registry Spec.RegistryInv
-     Proofs.RegistryBase Proofs.RegistryProofs Proofs.RegistryReparent Proofs.RegistryHistory Proofs.RegistryDerived
-     Proofs.RegistryFuel Proofs.RegistryWitness.
+     Proofs.RegistryBase Proofs.RegistryProofs Proofs.RegistryReparent Proofs.RegistryFuel Proofs.RegistryTotal
+     Proofs.RegistryHistory Proofs.RegistryDerived Proofs.RegistryCheck Proofs.RegistryWitness
+     Spec.C3 Model.Mro Proofs.RegistryMro Model.Implements Proofs.ImplementsProofs.
 Import ListNotations.
 Local Open Scope N_scope.
 
@@ -30,12 +30,31 @@ Theorem C02_inv_add :
   forall s c n q k s', Inv s -> guard_add_child s c n q -> step s (AddChild c n q k) = Some s' -> Inv s'.
 Proof. exact step_add_child_inv. Qed.
 
-(* _addUnprocessedModule of a new module / package, top-level or inside a registered package; and the duplicate
-   rule "packages win" (the later module is dropped, nothing changes). *)
+(* _addUnprocessedModule of a new module / package, top-level or inside a registered package, and BOTH duplicate
+   rules of _handleDuplicateModule: "packages win" (the later module is dropped, nothing changes) and, inside a
+   package, "the last wins" (self._remove(first): the old module and everything below it leave the registry, the
+   new module takes the name and the contents entry).  Excluded by the guard: the last-wins replacement of a
+   TOP-LEVEL module (C02_dup_root_refuted). *)
 Theorem C02_inv_add_module :
   forall s pkg n parent s', Inv s -> guard_add_module s pkg n parent ->
                             step s (AddModule pkg n parent) = Some s' -> Inv s'.
 Proof. exact step_add_module_inv. Qed.
+
+(* ... the duplicate case spelled out: a module q.n is registered, another one of that name arrives. *)
+Theorem C02_inv_dup_module :
+  forall s pkg n q pq first s',
+    Inv s -> reg s q -> ocl (store s q) = CPackage -> fullpath s q = Some pq ->
+    rget (pq ++ [n]) (allobj s) = Some first ->
+    (ocl (store s first) = CPackage /\ pkg = false) \/
+    (is_module (ocl (store s first)) = true /\ ocls_eqb (ocl (store s first)) CPackage && negb pkg = false /\
+     In first (unproc s) /\ covered s first) ->
+    step s (AddModule pkg n (Some q)) = Some s' -> Inv s'.
+Proof.
+  intros s pkg n q pq first s' HI Hq Hqp Hpq Hf Hcase H.
+  apply (step_add_module_inv s pkg n (Some q) s' HI); [|exact H].
+  cbn. split; [exact Hq|]. split; [exact Hqp|]. intros pq' first' Hpq' Hf'.
+  rewrite Hpq in Hpq'. inversion Hpq'; subst pq'. rewrite Hf in Hf'. inversion Hf'; subst first'. exact Hcase.
+Qed.
 
 (* I4, derived: from every registered object the walk up `parent` ends -- the fuel does not run out -- in a member
    of rootobjects, which is an ancestor. *)
@@ -72,14 +91,27 @@ Theorem C02_inv_reparent :
   forall s o np nn s', Inv s -> guard_reparent s o np nn -> step s (Reparent o np nn) = Some s' -> Inv s'.
 Proof. exact step_reparent_inv. Qed.
 
-(* Inv after EVERY history whose operations satisfy their guards and do not raise (induction over the history). *)
-Theorem C02_inv_history : forall s ops s', guarded_run s ops s' -> Inv s -> Inv s'.
+(* A guarded operation does not raise (no KeyError from a `del`, no AssertionError, no ValueError, no
+   RecursionError, fuel left): it completes, in a state that satisfies Inv again. *)
+Theorem C02_step_total : forall s o, Inv s -> guard s o -> exists s', step s o = Some s' /\ Inv s'.
+Proof. exact step_total_inv. Qed.
+
+(* Inv after EVERY history whose operations satisfy their guards (induction over the history); that the
+   operations complete is a consequence, not a hypothesis. *)
+Theorem C02_inv_history : forall ops s, Inv s -> guarded_hist s ops -> exists s', guarded_run s ops s' /\ Inv s'.
+Proof. exact guarded_hist_run. Qed.
+Theorem C02_inv_history_run : forall s ops s', guarded_run s ops s' -> Inv s -> Inv s'.
 Proof. exact history_inv. Qed.
 
-(* ... in executable form: what run_ops reports as `guarded` and `not raised` satisfies Inv.  The correspondence
-   check evaluates exactly this premise on every generated history and then checks the property on real pydoctor. *)
-Theorem C02_inv_history_exec : forall ops s, run_ops init ops 0 true = (s, None, true) -> Inv s.
-Proof. intros ops s H. exact (run_ops_guarded ops init 0 s inv_init H). Qed.
+(* ... in executable form: if run_ops reports that every executed operation satisfied guard_b, then no operation
+   raised and the final state satisfies Inv.  The correspondence check evaluates exactly this premise on every
+   generated history and then checks the property, and that nothing raised, on real pydoctor. *)
+Theorem C02_inv_history_exec : forall ops s f, run_ops init ops 0 true = (s, f, true) -> f = None /\ Inv s.
+Proof. intros ops s f H. exact (run_ops_guarded_total ops init 0 s f inv_init H). Qed.
+
+(* The executable checker decides the invariant: what the harness computes on a dump IS Inv. *)
+Theorem C02_inv_check_iff : forall s, inv_check s = true <-> Inv s.
+Proof. exact inv_check_iff. Qed.
 
 (* D2: after defaultPostProcess (run once: b has no subclasses recorded before), class c occurs in subclasses(b) exactly as often as b occurs in
    baseobjects(c) -- for registered classes c -- and nothing else occurs in subclasses(b). *)
@@ -105,6 +137,26 @@ Proof.
   - exact (page_file_not_summary s x fx HI Hr Hx Hfx).
 Qed.
 
+(* D1 (corollary of C05: Proofs/MroProofs.v mro_c3_gen): read the hierarchy that compute_mro hands to mro.mro off
+   the registry -- getbases(c) = the resolved base objects of c and, for each unresolved base, its name `ext c k`
+   (any naming) -- then every successful linearisation of a registered class starts with the class, names nothing
+   twice and contains each resolved base exactly once.  (Cyclic / inconsistent hierarchies: C05.) *)
+Theorem C02_mro_shape :
+  forall (cid : id -> cls) (ext : id -> nat -> cls), (forall a b, cid a = cid b -> a = b) ->
+  forall s rank n c r, Inv s -> reg s c -> ocl (store s c) = CClass ->
+    acyclic (hier_of cid ext s) rank -> mro n (hier_of cid ext s) (cid c) = MOk r ->
+    hd_error r = Some (cid c) /\ NoDup r /\
+    forall b, In (Some b) (obases (store s c)) -> count_occ N.eq_dec r (cid b) = 1%nat.
+Proof. exact mro_shape. Qed.
+
+(* D3: after zopeinterface.postProcess (from empty back-reference lists) x is in implementedby_directly of i exactly
+   when x is one of the implementers and one of the names in its implements_directly resolves to the interface i;
+   and it is listed once.  (Model/Implements.v; what find_object answers is an input.) *)
+Theorem C02_implements_inverse :
+  forall z L i x,
+    (In x (zpost z L (fun _ => []) i) <-> In x L /\ implements z x i) /\ NoDup (zpost z L (fun _ => []) i).
+Proof. exact implements_inverse. Qed.
+
 (* ---- the guards cannot be dropped: genuine defects (known_findings/C02.json) ---- *)
 
 (* class K: def f; def f  -- then class K again: the key of the superseded 'K.f 0' is not rewritten when K is
@@ -128,6 +180,17 @@ Proof. exists ops_dup_root. exact dup_root_witness. Qed.
 (* a sub-module re-exported by a plain module ends up inside a module that is not a package. *)
 Theorem C02_module_reexport_refuted : exists ops, raised ops = None /\ ~ Inv (final ops).
 Proof. exists ops_module_reexport. exact module_reexport_witness. Qed.
+
+(* The same four as single steps: `breaks pre o` = the state after the guarded history `pre` satisfies Inv, o does
+   not satisfy its guard there, o completes, and the state after o does not satisfy Inv. *)
+Theorem C02_dup_nested_step_refuted : exists pre o, breaks pre o.
+Proof. eexists. eexists. exact dup_nested_step. Qed.
+Theorem C02_reparent_collision_step_refuted : exists pre o np nn, breaks pre (Reparent o np nn).
+Proof. eexists. eexists. eexists. eexists. exact reparent_collision_step. Qed.
+Theorem C02_dup_root_step_refuted : exists pre n, breaks pre (AddModule true n None).
+Proof. eexists. eexists. exact dup_root_step. Qed.
+Theorem C02_module_reexport_step_refuted : exists pre o np nn, breaks pre (Reparent o np nn).
+Proof. eexists. eexists. eexists. eexists. exact module_reexport_step. Qed.
 
 (* roots index, b, moduleIndex: a coherent tree (inv_check = true) in which the page of module `index` and the
    project index are one file. *)
